@@ -199,7 +199,7 @@ func discover(spec *MockSpec) ([]*methodInfo, error) {
 		}
 		ms = append(ms, &methodInfo{name: name, funcIdx: i, ftype: f.Type, variadic: f.Type.IsVariadic(),
 			hasReset: pv.MethodByName("Reset" + name + "Calls").IsValid(),
-			callIdx: idx(name), callsIdx: idx(name + "Calls"), resetIdx: idx("Reset" + name + "Calls")})
+			callIdx:  idx(name), callsIdx: idx(name + "Calls"), resetIdx: idx("Reset" + name + "Calls")})
 	}
 	sort.Slice(ms, func(i, j int) bool { return ms[i].name < ms[j].name })
 	return ms, nil
